@@ -510,6 +510,7 @@ pub fn run_check(fam: &dyn Family, a: &CheckArgs) -> i32 {
     let mut stats: BTreeMap<String, u64> = BTreeMap::new();
     let (mut sim_clock, mut steps, mut ff, mut fr) = (0u64, 0u64, 0u64, 0u64);
     let mut ref_failed: Vec<Value> = vec![];
+    let mut ref_failed_by_reason: BTreeMap<String, u64> = BTreeMap::new();
     let mut n_ref_failed = 0u64;
     let mut samples: Vec<Value> = vec![];
     for r in &reports {
@@ -536,6 +537,16 @@ pub fn run_check(fam: &dyn Family, a: &CheckArgs) -> i32 {
         }
         if let Some(why) = &r.reference_failed {
             n_ref_failed += 1;
+            // histogram by reason: the text up to the first line break, digits masked
+            let key: String = why
+                .lines()
+                .next()
+                .unwrap_or("")
+                .chars()
+                .take(100)
+                .map(|c| if c.is_ascii_digit() { '#' } else { c })
+                .collect();
+            *ref_failed_by_reason.entry(key).or_insert(0u64) += 1;
             if ref_failed.len() < 5 {
                 ref_failed.push(json!({"scenario_index": r.idx, "why": why, "scenario": r.sample}));
             }
@@ -587,6 +598,7 @@ pub fn run_check(fam: &dyn Family, a: &CheckArgs) -> i32 {
             "workload_stats": stats,
             "reference_failed": n_ref_failed,
             "reference_failed_examples": ref_failed,
+            "reference_failed_by_reason": ref_failed_by_reason,
             "simulated_time_ticks": sim_clock,
             "scheduling_steps": steps,
             "runs_per_hour": if wall > 0.0 { (evaluations as f64 / wall * 3600.0) as u64 } else { 0 },
